@@ -307,3 +307,77 @@ def c_flux_cache(ctx, it, cfg):
             c.prove('node-loop/a-hit-stores-nothing', len(adds) == 0)
     it.loop_specs[(key, 0)] = LoopSpec(lambda env, c: [], havoc, name='node-loop', body_post=body_post)
     m._getFluxes(real(ctx, 't'), [x])
+
+
+@REG.contract('sampling-cache/samples-are-those-of-the-queried-temperature', [TH + ':GeneralThermodynamics._getPrecCompositionSetSamplingDF'],
+              configs=[dict(name='cache-filled', filled=True), dict(name='cache-empty', filled=False)])
+def c_sampling_cache(ctx, it, cfg):
+    """the sampled free energies of the precipitate phase are re-used only for the temperature they were computed at; otherwise they are recomputed at the
+    queried temperature and the cache entry is replaced"""
+    from .c11 import mk_therm
+    els = ['NI', 'AL', 'CR', 'VA']
+    th, v = mk_therm(ctx, it, els)
+    mod = it.load(TH)
+    ns = 3
+    made = []
+
+    class Points(object):
+        def __init__(self, tag, T):
+            self.tag, self.T = tag, T
+            self.used = False
+            self._X = NP.array([[real(ctx, '%s_X%d%d' % (tag, i, e), lambda q: q >= 0) for e in range(3)] for i in range(ns)])
+            self._Y = NP.array([[real(ctx, '%s_Y%d%d' % (tag, i, e)) for e in range(4)] for i in range(ns)])
+            self._GM = NP.array([real(ctx, '%s_GM%d' % (tag, i)) for i in range(ns)])
+
+        @property
+        def X(self):
+            self.used = True
+            return self._X
+
+        @property
+        def Y(self):
+            return self._Y
+
+        @property
+        def GM(self):
+            return self._GM
+
+    def calculate(db, elements, phase, **kw):
+        p = Points('new%d' % len(made), kw.get('T'))
+        made.append((p, kw))
+        return p
+    mod.env['calculate'] = calculate
+
+    class CS(object):
+        def __init__(self, rec):
+            self.phase_record = rec
+            self.updated = None
+
+        def update(self, y, n, sv):
+            self.updated = (y, n, sv)
+    mod.env['CompositionSet'] = CS
+    rec = type('Rec', (), {'phase_dof': 4})()
+    SPC = mod.env['SampledPointsCache']
+    T = real(ctx, 'T', lambda q: q > 0)
+    Tprev = real(ctx, 'T_of_cached_samples', lambda q: q > 0)
+    old = Points('old', Tprev)
+    th.fields.update(phase_records={'GAMMA_PRIME': rec}, orderedPhase={'GAMMA_PRIME': False}, sampling_pDens=100, db=None, gOffset=1,
+                     _points_cache={'GAMMA_PRIME': SPC(temperature=Tprev, samples=old, ordered_samples=None)} if cfg['filled'] else {})
+    th.fields['_setupSubModels'] = lambda ph: (list(ph), {})
+    mu = NP.array([real(ctx, 'mu%d' % e) for e in range(3)])
+    dg, cs = th._getPrecCompositionSetSamplingDF(NP.array([real(ctx, 'x0'), real(ctx, 'x1')]), T, mu, 'GAMMA_PRIME')
+    entry = th.fields['_points_cache'].get('GAMMA_PRIME')
+    if made:
+        p, kw = made[0]
+        ctx.prove('recomputed-once-at-the-queried-temperature', len(made) == 1 and eq(kw.get('T'), T) and p.used and not old.used)
+        ctx.prove('cache-entry-replaced-by-the-new-samples-and-their-temperature', entry is not None and entry.samples is p and eq(entry.temperature, T))
+        if cfg['filled']:
+            ctx.prove('recomputed-only-when-the-cached-temperature-differs', not_(eq(Tprev, T)))
+    else:
+        ctx.prove('cached-samples-re-used-only-for-their-own-temperature', cfg['filled'] and eq(Tprev, T) and old.used)
+    used = made[0][0] if made else old
+    ctx.prove('driving-force-is-the-largest-distance-below-the-tangent-plane-over-the-samples-of-THIS-temperature',
+              and_(*[dg >= sum((used._X.get(i, e) * mu.get(e) for e in range(3)), 0) - used._GM.get(i) for i in range(ns)]))
+    ctx.prove('state-variables-of-the-returned-set-carry-the-queried-temperature', cs.updated is not None and eq(cs.updated[2].get(3), T))
+    if cfg['filled']:
+        ctx.prove('canary/always-recomputed', len(made) == 1, expect='refuted')
